@@ -427,7 +427,7 @@ def load_dot(path):
     return g
 
 
-def cover_paths(g, rng, max_paths=None, full=True, max_len=400, want_terminal=True):
+def _cover_paths_general(g, rng, max_paths=None, full=True, max_len=400, want_terminal=True):
     """Edge-covering set of paths, each from an initial state; a path prefers uncovered edges and is
     extended to a terminal state (a state with no outgoing edge other than self loops).
     Returns list of paths; path = (init node, [(label, dst), ...])."""
@@ -521,6 +521,122 @@ def cover_paths(g, rng, max_paths=None, full=True, max_len=400, want_terminal=Tr
             if guard > 50 * max(1, len(inits)):
                 break
     return paths, len(covered), total
+
+
+def fast_cover_paths(g, rng, max_paths=None, full=True, max_len=400, want_terminal=True):
+    """Drop-in replacement for vlib.cover_paths for *acyclic* state graphs (every LimitedQueue action
+    increases a counter, leaves a resolution state or destroys the queue).  Same contract: a set of
+    root-to-terminal paths covering every edge, each path preferring uncovered edges.  vlib.cover_paths
+    runs a breadth-first search from the root for every path (quadratic: 200 s for 3*10^4 edges) and
+    stops early when one of several initial states has its sub-graph covered; here the distance to the
+    nearest uncovered edge is maintained incrementally (amortised near-linear)."""
+    out = {n: [(l, d) for (l, d) in es if d != n] for n, es in g.edges.items()}
+    # acyclic?  (iterative DFS, colours) -- otherwise use the shared implementation
+    colour = {}
+    for root in out:
+        if root in colour:
+            continue
+        stack = [(root, 0)]
+        colour[root] = 1
+        while stack:
+            n, i = stack.pop()
+            if i < len(out[n]):
+                stack.append((n, i + 1))
+                d = out[n][i][1]
+                c = colour.get(d, 0)
+                if c == 1:
+                    return _cover_paths_general(g, rng, max_paths=max_paths, full=full, max_len=max_len,
+                                             want_terminal=want_terminal)
+                if c == 0:
+                    colour[d] = 1
+                    stack.append((d, 0))
+            else:
+                colour[n] = 2
+    total = sum(len(v) for v in out.values())
+    uncovered = {n: list(range(len(es))) for n, es in out.items()}   # indices of uncovered out-edges
+    pred = {}
+    for n, es in out.items():
+        for (_, d) in es:
+            pred.setdefault(d, []).append(n)
+    # du[n]: distance from n to the nearest node (n included) that has an uncovered out-edge; INF when
+    # everything below n is covered.  Kept exact: it only grows, and growth is propagated to predecessors.
+    INF = 1 << 30
+    du = {n: (0 if es else INF) for n, es in out.items()}
+
+    def node_done(n):
+        # the last uncovered edge of n was taken
+        work = [n]
+        while work:
+            m = work.pop()
+            if uncovered[m]:
+                continue
+            best = min((du[d] for (_, d) in out[m]), default=INF)
+            v = best + 1 if best < INF else INF
+            if v != du[m]:
+                du[m] = v
+                work.extend(pred.get(m, ()))
+
+    # distance to the nearest terminal state (acyclic: memoised depth-first)
+    dist_term = {}
+    for root in out:
+        stack = [root]
+        while stack:
+            m = stack[-1]
+            if m in dist_term:
+                stack.pop()
+                continue
+            todo = [d for (_, d) in out[m] if d not in dist_term]
+            if todo:
+                stack.extend(todo)
+            else:
+                dist_term[m] = 1 + min(dist_term[d] for (_, d) in out[m]) if out[m] else 0
+                stack.pop()
+
+    paths = []
+    ncov = 0
+    inits = [i for i in g.init]
+    while inits:
+        if max_paths is not None and len(paths) >= max_paths:
+            break
+        inits = [i for i in inits if du[i] < INF]
+        if not inits:
+            break
+        init = rng.choice(inits)
+        cur = init
+        steps = []
+        while True:
+            unc = uncovered[cur]
+            if unc:
+                # prefer an uncovered edge below which more is to be covered (the path stays productive)
+                good = [j for j in range(len(unc)) if du[out[cur][unc[j]][1]] < INF]
+                j = rng.choice(good) if good else rng.randrange(len(unc))
+                unc[j], unc[-1] = unc[-1], unc[j]
+                i = unc.pop()
+                ncov += 1
+                e = out[cur][i]
+                if not unc:
+                    node_done(cur)
+            else:
+                if du[cur] >= INF:
+                    break
+                # towards the nearest node with an uncovered edge
+                e = rng.choice([x for x in out[cur] if du[x[1]] == du[cur] - 1])
+            steps.append(e)
+            cur = e[1]
+        # everything below cur is covered; extend to a terminal state along a shortest way
+        while want_terminal and out[cur]:
+            e = min(out[cur], key=lambda x: dist_term[x[1]])
+            steps.append(e)
+            cur = e[1]
+        paths.append((init, steps))
+    return paths, ncov, total
+
+
+
+def cover_paths(g, rng, max_paths=None, full=True, max_len=400, want_terminal=True):
+    """edge-covering path set: near-linear algorithm for acyclic graphs (contributed by the C10 work), general
+    BFS-based algorithm otherwise"""
+    return fast_cover_paths(g, rng, max_paths=max_paths, full=full, max_len=max_len, want_terminal=want_terminal)
 
 
 def random_paths(g, rng, n, max_len=400):
